@@ -89,8 +89,20 @@ def cobserved(ob):
 IMP_T = 'From BE Require Import Model.Session Model.SessionTie Model.JsonTie Model.Json Model.CaseLib.\nFrom Coq Require Import ZArith.'
 
 
-def run_sessions(sessions, timeout=1800):
-    return lib.run_impl('session', dict(sessions=sessions), timeout=timeout)
+def run_sessions(sessions, timeout=3000, procs=8):
+    """Controlled sessions are independent: run them in several driver processes."""
+    if len(sessions) <= 2:
+        return lib.run_impl('session', dict(sessions=sessions), timeout=timeout)
+    import concurrent.futures as cf
+    n = min(procs, len(sessions))
+    parts = [sessions[i::n] for i in range(n)]
+    with cf.ThreadPoolExecutor(max_workers=n) as ex:
+        outs = list(ex.map(lambda part: lib.run_impl('session', dict(sessions=part), timeout=timeout), parts))
+    res = [None] * len(sessions)
+    for k, part in enumerate(outs):
+        for j, o in enumerate(part):
+            res[k + j * n] = o
+    return res
 
 
 def tie(prop, tag, items, shard=2):
